@@ -335,3 +335,61 @@ func hash(s string) string {
 
 // Pick is a small helper for generators.
 func Pick(r *rand.Rand, xs ...string) string { return xs[r.Intn(len(xs))] }
+
+// ForeignWarmup hands every requirement text of the universe to the matcher
+// of the *other* packaging systems first (over a small fixed version list).
+// It changes nothing a correct library can observe; it is there so that state
+// that outlives a call and is keyed by the text alone (a process-wide cache of
+// parsed requirements, say) is filled with the other systems' reading of the
+// same text before the system under test asks.
+func ForeignWarmup(u *Universe) {
+	var versions = []string{"0.9.0", "1.0.0", "1.2.5", "1.5.0", "2.0.0", "3.1.0"}
+	seen := map[string]bool{}
+	for _, v := range u.Versions {
+		for _, q := range v.Reqs {
+			if seen[q.Req] {
+				continue
+			}
+			seen[q.Req] = true
+			for _, sys := range []resolve.System{resolve.NPM, resolve.Maven, resolve.PyPI} {
+				if sys == u.System() {
+					continue
+				}
+				func() {
+					defer func() { recover() }() // totality is C04's subject
+					vs := make([]resolve.Version, len(versions))
+					for i, s := range versions {
+						vs[i] = resolve.Version{VersionKey: resolve.VersionKey{PackageKey: resolve.PackageKey{System: sys, Name: "warm"}, VersionType: resolve.Concrete, Version: s}}
+					}
+					resolve.MatchRequirement(resolve.VersionKey{PackageKey: resolve.PackageKey{System: sys, Name: "warm"}, VersionType: resolve.Requirement, Version: q.Req}, vs)
+				}()
+			}
+		}
+	}
+}
+
+// PyPISaturation is a universe whose root carries more requirements with
+// distinct (false) environment markers than the PyPI resolver's caches hold
+// (10000 entries each): resolving its root on a resolver fills the marker
+// cache beyond its capacity, so that whatever is looked up afterwards goes
+// through the eviction path.
+var PyPISaturation = sync.OnceValue(func() *Universe {
+	u := &Universe{Sys: "PyPI"}
+	root := Version{Name: "saturation-root", Version: "1.0"}
+	for i := 0; i < 10100; i++ {
+		root.Reqs = append(root.Reqs, Req{Name: "saturation-dep", Req: "", Environment: fmt.Sprintf(`sys_platform == "never-%d"`, i)})
+	}
+	u.Versions = []Version{root, {Name: "saturation-dep", Version: "1.0"}}
+	return u
+})
+
+// SaturatePyPI resolves the saturation root through the given resolver, which
+// must be reading from sw; sw is pointed at the saturation universe for the
+// duration of the call.
+func SaturatePyPI(res resolve.Resolver, point func(resolve.Client)) {
+	u := PyPISaturation()
+	point(saturationClient())
+	res.Resolve(context.Background(), u.VK("saturation-root", "1.0", resolve.Concrete))
+}
+
+var saturationClient = sync.OnceValue(func() *resolve.LocalClient { return PyPISaturation().Client(nil) })
